@@ -825,8 +825,58 @@ def _order_preserving(init: Func, vararg: str):
         elif isinstance(v, ast.BinOp) or isinstance(v, ast.Name):
             continue
         else:
-            return None, f"{norm(v)}", st
+            # a pipeline of order transformations over the flattened tuple: reversals must cancel, and a de-duplication must
+            # keep the FIRST copy in layering order (dropping a later copy of a deterministic partial interpretation changes
+            # nothing; dropping the innermost copy does)
+            verdict = _seq_pipeline(v, vararg)
+            if verdict is None:
+                return None, f"{norm(v)}", st
+            if verdict is not True:
+                return False, f"{norm(v)}: {verdict}", st
+            continue
     return True, "nested comprehension over the arguments and their own layers, in order", assigns[0]
+
+
+def _seq_pipeline(e: ast.AST, src: str):
+    """True when `e` is the sequence `src` with order kept (and at most later duplicates dropped); a string when it reorders
+    or drops an earlier (inner) copy; None when not understood."""
+    rev = False
+    cur = e
+    problems = []
+    steps = []
+    while True:
+        if isinstance(cur, ast.Name) and cur.id == src:
+            break
+        if isinstance(cur, ast.Subscript) and isinstance(cur.slice, ast.Slice) and cur.slice.lower is None and cur.slice.upper is None \
+                and isinstance(cur.slice.step, ast.UnaryOp) and isinstance(cur.slice.step.op, ast.USub) and isinstance(cur.slice.step.operand, ast.Constant) and cur.slice.step.operand.value == 1:
+            steps.append("rev")
+            cur = cur.value
+            continue
+        if isinstance(cur, ast.Call) and isinstance(cur.func, ast.Name) and len(cur.args) == 1:
+            if cur.func.id in ("tuple", "list"):
+                cur = cur.args[0]
+                continue
+            if cur.func.id == "reversed":
+                steps.append("rev")
+                cur = cur.args[0]
+                continue
+            if cur.func.id in ("set", "frozenset", "sorted"):
+                return f"`{cur.func.id}` does not keep the layering order"
+            return None
+        if isinstance(cur, ast.Call) and isinstance(cur.func, ast.Attribute) and cur.func.attr == "fromkeys" and len(cur.args) == 1:
+            steps.append("dedup")
+            cur = cur.args[0]
+            continue
+        return None
+    # steps were collected outermost-first; apply innermost-first
+    for st_ in reversed(steps):
+        if st_ == "rev":
+            rev = not rev
+        elif st_ == "dedup" and rev:
+            problems.append("duplicates are removed scanning from the tail, which drops the innermost (first) copy of a re-entered interpretation")
+    if rev:
+        problems.append("the order of the layers is reversed")
+    return True if not problems else "; ".join(problems)
 
 
 def _property_returns(cls, prop: str, attr: Optional[str]) -> bool:
